@@ -4,7 +4,10 @@ CFG = {
     "repo_bins": ["pdf_printer"],
     "compare_words": 1,   # `completed` | `rejected` | `abnormal`: the end-to-end model (Model/Pipeline.lean) must agree with the real binary's exit status
     "rustgen": True,      # prefixes / mutations of the repository's sample PDFs as explicit `doc` lines (the Lean driver cannot read them)
-    "theorems": ["Parsley.C01.pipeline_stages_never_panic_partial",
+    "theorems": ["Parsley.C01.pipeline_never_panics_partial", "Parsley.C01.process_file_never_panics",
+                 "Parsley.C01.extract_never_panics", "Parsley.C01.dump_root_terminates", "Parsley.C01.shipped_check_total",
+                 "Parsley.C01.pipeline_fuel_bound_partial", "Parsley.C01.parseDataE_agrees",
+                 "Parsley.C01.pipeline_stages_never_panic_partial",
                  "Parsley.C16.parse_never_panics", "Parsley.C16.depth_restored", "Parsley.C05.indirect_never_panics",
                  "Parsley.C13.table_never_panics", "Parsley.C13.dictinfo_never_panics", "Parsley.C13.parseStream_never_panics",
                  "Parsley.C13.rows_terminate", "Parsley.C07.predictor_never_panics", "Parsley.C07.filter_never_panics",
@@ -12,31 +15,69 @@ CFG = {
                  "Parsley.C11.resolve_fuel_sufficient", "Parsley.C09.machine_steps_le_fuel", "Parsley.C09.machine_fuel_independent",
                  "Parsley.C09.machine_terminates", "Parsley.C03.load_never_panics_partial", "Parsley.C04.prev_cycle_or_oob_rejected",
                  "Parsley.C12.extract_total_on_trees", "Parsley.C06.flate_glue_rejects"],
-    "partial": {"Parsley.C01.pipeline_stages_never_panic_partial":
-                "stage-by-stage: object parser, indirect objects / stream framing, xref table, xref stream dictionary and rows, predictor reversal "
-                "object streams, page DOM construction (terminates within |defs|+1 iterations), the whole loader parse_data composed from the stage models (no panic for every file < 2^62 bytes, conditional on the decoders being total: DecodersTotal), the /Prev chain bound, the type-check work loop (terminates within the explicit workBound); the type-check loop's fuel-independence/step theorems (C09) and the filter glue (C06) and text-extraction loop (C12) theorems are audited under their own properties. NOT covered by any theorem: the composition glue of "
-                "pdf_traverse_xref.rs and src/bin/pdf_printer.rs between the stages, the machine stack actually consumed, zlib/jpeg-decoder/regex internals, "
-                "allocation failure, wall-clock time. Those are exercised only by running the real binary (below)."},
-    "n": {"quick": 1200, "thorough": 60000},
+    "partial": {
+        "Parsley.C01.pipeline_never_panics_partial":
+            "FULL STATEMENT WANTED: for every byte string, Pipeline.run bs (the end-to-end model of pdf_printer: loader, dump_root, type check against "
+            "the regenerated shipped catalog specification, page DOM, per-page decoding, text extraction, with the glue of src/bin/pdf_printer.rs) is "
+            "`completed` or `rejected`. PROVED: exactly that for every file below 2^62 bytes under ONE hypothesis inherited from C03's loader theorem "
+            "and not discharged: DecodersTotal (the executable zlib inflate model of C06 never ends in its own fuel outcome, and no decoder returns "
+            "more than 2^63 bytes). Every other panic site and every fuel is proved unreachable for all inputs: the loader (C03, with C16/C05/C13/C14/C07 "
+            "inside), dump_root's breadth-first traversal on arbitrary (cyclic) graphs within |objU|+1 dequeues, the type-check machine on the shipped "
+            "specification (C09 work bound; its two unreachable! sites: no node of the regenerated specification is a disjunction without alternatives), "
+            "to_page_dom (C11), the decode_stream glue, and the text extractor for ALL inputs (extract_never_panics: extractor loop and nested object "
+            "parser fuels suffice, no Rust partial operation fires). NOT covered by any theorem: the machine stack actually consumed, zlib / "
+            "jpeg-decoder / regex internals (DCTDecode is an opaque decoder that never succeeds in the model), allocation failure, wall-clock time, a "
+            "closed stdout. Those are exercised only by running the real binary.",
+        "Parsley.C01.pipeline_fuel_bound_partial":
+            "FULL STATEMENT WANTED: one closed-form step bound in |bs|. PROVED: explicit budgets per loop, each a function of the LOADED document "
+            "(dump_root: |objU|+1 dequeues; check_type: workBound iterations, any larger fuel gives the same verdict and count; to_page_dom: |defs|+1; "
+            "text extraction: |content|+1 loop iterations and 2|content|+2 for the nested object parser) and the /Prev chain bound of C04 in |bs|. "
+            "Not a function of |bs| alone because an object stream may decode to more bytes than the file has.",
+        "Parsley.C01.pipeline_stages_never_panic_partial":
+            "the stage theorems gathered into one obligation (object parser, indirect objects / stream framing, xref table, xref stream dictionary and rows, "
+            "predictor reversal, object streams, page DOM, loader, type-check work loop) so that a stage model losing its no-panic theorem breaks C01 as well; "
+            "superseded as the main claim by pipeline_never_panics_partial"},
+    "n": {"quick": 1200, "thorough": 20000},
     "exhaustive": {"quick": False, "thorough": False},
-    "rule": "the REAL pdf_printer binary, built from /repo's working tree, is run in a subprocess (20 s limit, 4 GiB address space) on: hand-built adversarial "
-            "documents (self-referential objects used as /Kids, /Contents, /Resources, /Pages, /Length, /Root, /Font, /Filter; /Kids and /Contents and reference-chain "
-            "loops; 15 /DecodeParms shapes with extreme /Predictor /Columns /Colors /BitsPerComponent singly and as parallel arrays; Flate, ASCIIHex, ASCII85 and chained "
-            "filters; 15 extreme numbers substituted into /Length, /N, /First, /W, /Index, /Prev, startxref; classic-table, xref-stream (+Flate), object-stream and "
-            "incrementally-updated layouts; /Prev self, cycle and out-of-range; nesting 10..10^5 (thorough 10^6) levels in an object and in a content stream); every "
-            "prefix (quick: every 23rd) of the four sample PDFs of the repository; random number substitutions, truncations and byte edits of five base documents; "
-            "random multi-edit mutations of the sample PDFs. Oracle: exit status 0 or 1. non-trivial = document >= 64 bytes or a sample mutation (distinct by case hash)",
+    "rule": "every case is a complete file (`doc <hex>`) run through (a) the REAL pdf_printer binary, built from /repo's working tree, in a subprocess "
+            "(10 s limit, 4 GiB address space; outcome = exit status 0 completed / 1 rejected / anything else abnormal) and (b) the end-to-end Lean model "
+            "Pipeline.run; the outcome words must agree, and the oracle accepts only completed/rejected. Generators: hand-built adversarial documents "
+            "(self-referential objects used as /Kids, /Contents, /Resources, /Pages, /Length, /Root, /Font, /Filter; /Kids, /Contents and reference-chain "
+            "loops: self, cycle, lasso, long, dangling, cyclic containers at 18 reference positions; 15 /DecodeParms shapes with extreme /Predictor /Columns "
+            "/Colors /BitsPerComponent singly and as parallel arrays; Flate, ASCIIHex, ASCII85 and chained filters; 15 extreme numbers substituted into "
+            "/Length, /N, /First, /W, /Index, /Prev, startxref; classic-table, xref-stream (+Flate), object-stream, incrementally-updated and encrypted "
+            "layouts; /Prev self, cycle and out-of-range; nesting 10..10^5 (thorough 10^6) levels in an object, in a content stream and inside a "
+            "compatibility section); a content-stream family on a one-page document that reaches text extraction (about 170 hostile snippets: stray "
+            "delimiters inside and outside BX..EX, nested/lone BX EX, unterminated strings/arrays/dictionaries, operators with missing or extra "
+            "operands, BT/ET mismatches, unknown operators, inline images with binary data, numbers at the i64/i128 limits, names with #00, comments "
+            "without end of line, empty and blank streams), each also doubled, put inside BX..EX and after BT across TWO content streams, and eight "
+            "token sequences split over two content streams at every token boundary; multi-page trees (flat and with an inner node) mixing good pages, "
+            "undecodable or unknown-filter content, ill-formed content, non-embedded fonts and content arrays; 15 font dictionaries; random number "
+            "substitutions, truncations, byte edits, random content-token walks and snippet pairs on six base documents; natively generated: every "
+            "prefix (quick: every 23rd) and random multi-edit mutations of the four sample PDFs of the repository. Files above 1.5 MB with more than 50 "
+            "consecutive nesting openers (the 10^6-deep cases of the thorough tier) are answered `rejected` by a labelled closed form instead of the "
+            "byte-list model. non-trivial = document >= 64 bytes (distinct by case hash)",
     "trusted_base": COMMON_TB + [
-        "the pipeline as a whole is NOT modelled: the executable 'model' of this check is the statement itself (terminates normally); per-stage models belong to C02/C05/C06/C07/C09/C11/C12/C13/C14",
-        "the subprocess runner (ulimit -v, 20 s timeout, exit-status classification) in harness/src/bin/c01.rs"],
-    "assumptions": ["exit status 0 = completed, 1 = located diagnostic (exit_log!); 101 = Rust panic (log_panics), signals = abort/stack overflow"],
+        "the end-to-end model Model/Pipeline.lean is hand-written glue over the stage models (Loader, Filters/Inflate/Predictor, TypeCheck + the regenerated "
+        "Gen/CatalogSpec, PageDom, Content); it is tied to the real binary by the correspondence run on every case (exit status vs model outcome)",
+        "Gen/CatalogSpec.lean is regenerated by ./check C10, not by this check: a change of the shipped specification in /repo shows here as a correspondence break",
+        "DCTDecode (jpeg-decoder) is an opaque decoder that never succeeds in the model; println!/log output is not modelled (the harness gives the binary /dev/null)",
+        "the subprocess runner (ulimit -v, 10 s timeout, exit-status classification) in harness/src/bin/c01.rs",
+        "labelled closed form for files above 1.5 MB that contain more than 50 consecutive nesting openers (Driver/C01.lean sizeCap): the model is not run on them"],
+    "assumptions": ["exit status 0 = completed, 1 = located diagnostic (exit_log!); 101 = Rust panic (log_panics), signals = abort/stack overflow",
+                    "DecodersTotal (hypothesis of pipeline_never_panics_partial, inherited from C03): zlib inflate model never out of its own fuel, decoder outputs <= 2^63 bytes"],
 }
 LEVEL = {
     "design_ref": "DESIGN.md 3.C01 and 8",
-    "technique": "Lean 4 no-panic/termination theorems per pipeline stage (gathered into one obligation) + adversarial-document runs of the real binary",
-    "text": "PARTIAL. Proved (machine-checked, all inputs): every modelled stage of the pipeline - object parser with its depth context, indirect objects and stream "
-            "framing, classic xref sections, xref-stream dictionary/rows, predictor reversal - ends in a value or an error and never reaches a panic site, with explicit "
-            "loop-fuel bounds; these theorems are re-checked here so that losing one breaks C01. Not proved: the glue between stages, stack depth, external "
-            "libraries, allocator, time; for these the check runs the real pdf_printer binary on generated adversarial documents and on prefixes/mutations of the "
-            "sample files and requires exit status 0 or 1.",
+    "technique": "Lean 4 end-to-end model of pdf_printer (Pipeline.run) with a no-panic/termination theorem assembled from the stage theorems + "
+                 "correspondence of the model's outcome with the real binary's exit status on adversarial documents",
+    "text": "PARTIAL. Proved (machine-checked): for every file below 2^62 bytes the end-to-end model Pipeline.run - loader, dump_root traversal with "
+            "decode_stream on every reachable stream, type check against the regenerated shipped catalog specification, page DOM, per-page decoding and "
+            "text extraction, with the glue of src/bin/pdf_printer.rs - ends in `completed` or `rejected`: no modelled Rust partial operation (unwrap, "
+            "assert!, index, overflow, unreachable!) and no loop fuel is reachable, with explicit budgets per loop; one hypothesis (DecodersTotal: the "
+            "zlib inflate model's own fuel, decoder output sizes) is inherited from the loader theorem and not discharged. The text extractor's totality, "
+            "dump_root's termination on cyclic graphs and the absence of the type checker's unreachable! sites on the shipped specification are proved at "
+            "full strength for all inputs. Not proved: stack depth, external libraries, allocator, time; for these, and to tie the model to the code, the "
+            "check runs the real pdf_printer binary on generated adversarial documents and on prefixes/mutations of the sample files, requires exit "
+            "status 0 or 1, and requires the model to predict which of the two.",
 }
